@@ -27,11 +27,7 @@ import core
 import implrun
 
 LAYOUTS = {'flux_surface': [0, 3, 1, 2], 'v_parallel': [0, 2, 1, 3], 'poloidal': [3, 2, 1, 0]}
-K_LATEST_LOAD = 'grid.loadFromFile:max-lexicographic-t>=1e6'
-K_LATEST_SETUP = 'setups.setupFromFile:max-lexicographic-t>=1e6'
 K_RP = 'constants:rp-not-roundtripped'
-K_FLOAT_FINAL = 'fullSimulation:float-dt-final-block'
-K_FLOAT_TRUNC = 'setups.setupFromFile:non-integer-time-truncated'
 K_RESTART_ROWS = 'fullSimulation:restart-unaligned-rows'
 
 
@@ -135,7 +131,8 @@ def ckpt_case(c):
             lay = g.getLayout(name)
             bits = np.ascontiguousarray(g._f).view(np.uint64)
             return (name, [int(x) for x in lay.starts], [int(x) for x in lay.shape],
-                    [int(x) for x in lay.nprocs], bits.copy(), None if tret is None else int(tret))
+                    [int(x) for x in lay.nprocs], bits.copy(),
+                    None if tret is None else (type(tret).__name__, float(tret)))
         R2 = MPI.run(nr2, rd, seed=c['seed'] + 1)
         if R2.outcome != 'ok':
             out['read'] = (R2.outcome, R2.detail[:300], None)
@@ -173,7 +170,8 @@ def gen_ckpt_cases(chk, rng):
     n = 70 if chk.tier == 'quick' else 2000
     cases = []
     time_sets = [[0], [5], [5, 40], [40, 100, 5], [999999, 5, 100], [100, 999999, 40, 5], [7, 123456, 99999, 100000]]
-    big_sets = [[999999, 1000000], [5, 1000000, 40], [2000000, 10000000, 999998]]
+    big_sets = [[999999, 1000000], [5, 1000000, 40], [2000000, 10000000, 999998], [999999.5, 1000000, 999999],
+                [0.5, 1, 1.5], [2.0, 10.5, 3, 0], [12.0], [99999.5, 100000.0, 7], [1000000.0, 999999, 20.5]]
     for i in range(n):
         npts = [rng.randint(3, 7) for _ in range(4)]
         if rng.random() < 0.3:
@@ -188,7 +186,7 @@ def gen_ckpt_cases(chk, rng):
             g2 = g1
         loader = 'setup' if i % 4 == 3 else 'load'
         times = list(rng.choice(time_sets))
-        if i % 10 == 9:
+        if i % 5 == 4:
             times = list(rng.choice(big_sets))
         c = {'kind': 'ckpt', 'npts': npts, 'layout': lay, 'grid': list(g1), 'grid2': list(g2), 'loader': loader,
              'times': times, 'seed': rng.randint(0, 10 ** 6), 'time': None}
@@ -212,7 +210,9 @@ def ckpt_stratum(c):
     s = 'save1' if p1 == 1 else 'saveN'
     s += '-same' if c['grid'] == c['grid2'] else ('-load1' if p2 == 1 else '-other')
     s += '-' + c['loader']
-    if max(c['times']) >= 10 ** 6 and c['time'] is None:
+    if any(isinstance(t, float) for t in c['times']):
+        s += '-floattimes'
+    elif max(c['times']) >= 10 ** 6 and c['time'] is None:
         s += '-t>=1e6'
     elif len(c['times']) > 1:
         s += '-multi'
@@ -257,23 +257,23 @@ def check_ckpt(chk, cases, results):
             chk.violation('checkpoint-load:' + r['read'][0], 'load failed %r on %r' % (r['read'][:2], c), rep)
             continue
         want_t = c['time'] if c['time'] is not None else max(c['times'])
-        lexmax = max('grid_{:06}.h5'.format(t) for t in c['times'])
-        lex_t = int(lexmax.split('_')[-1].split('.')[0])
         for rr in r['read'][2]:
             key = None
             if not rr['exact']:
                 loaded_t = [c['times'][i] for i in rr['tsel'] if i < len(c['times'])]
-                if c['time'] is None and max(c['times']) >= 10 ** 6 and lex_t != want_t and loaded_t == [lex_t]:
-                    key = K_LATEST_LOAD if c['loader'] == 'load' else K_LATEST_SETUP
-                    what = ('latest checkpoint chosen by max() of the file names: loaded t=%d although t=%d exists (%r)'
-                            % (lex_t, want_t, c['times']))
-                else:
-                    key = 'checkpoint-load:block-differs'
-                    what = ('rank %d of %r loaded a block that is not its block of the global field at t=%d '
-                            '(loaded checkpoint(s) %r) case %r' % (rr['rank'], rr['nprocs'], want_t, loaded_t, c))
+                key = 'checkpoint-load:block-differs'
+                what = ('rank %d of %r loaded a block that is not its block of the global field at t=%r '
+                        '(loaded checkpoint(s) %r; the latest / requested one is expected) case %r'
+                        % (rr['rank'], rr['nprocs'], want_t, loaded_t, c))
                 chk.violation(key, what, rep)
-            if c['loader'] == 'setup' and rr['tret'] != (want_t if key is None else lex_t) and key is None:
-                chk.violation('setups.setupFromFile:time', 'returned t=%r, expected %r: %r' % (rr['tret'], want_t, c), rep)
+            if c['loader'] == 'setup' and key is None:
+                # a time read from a file name is an int when integral (a4e5b38); a requested timepoint is returned as given
+                if c['time'] is not None:
+                    exp_t = (type(c['time']).__name__, float(c['time']))
+                else:
+                    exp_t = ('int', float(want_t)) if float(want_t) == int(want_t) else ('float', float(want_t))
+                if tuple(rr['tret']) != exp_t:
+                    chk.violation('setups.setupFromFile:time', 'returned t=%r, expected %r: %r' % (rr['tret'], exp_t, c), rep)
             if c['loader'] == 'setup' and c.get('want') and rr['layout'] != c['want']:
                 chk.violation('setups.setupFromFile:layout', 'requested layout %s, got %s' % (c['want'], rr['layout']), rep)
             # model: what this rank reads, as tags
@@ -292,9 +292,16 @@ def check_ckpt(chk, cases, results):
                         ' '.join(map(str, g2)), ' '.join(map(str, crd)), ' '.join(map(str, cells))))
                     idx.append((ci, 'rt', rr['tags'], rr['rank']))
         # the model's choice of the latest file
-        if c['time'] is None:
-            req.append('cklatest ' + ' '.join(map(str, c['times'])))
-            idx.append((ci, 'latest', [ord(ch) for ch in lexmax], None))
+        def stamp(t):
+            return 'i%d' % t if isinstance(t, int) else 'f%d' % int(round(2 * t))
+        if c['time'] is None and all(x['exact'] for x in r['read'][2]):
+            # the file the code chose (identified by the payload) against the model's choice by time key
+            req.append('cklatest ' + ' '.join(stamp(t) for t in c['times']))
+            idx.append((ci, 'latest', [ord(ch) for ch in 'grid_{:06}.h5'.format(max(c['times']))], None))
+        for t in c['times']:
+            # the names written by writeH5Dataset against the model's names
+            req.append('ckstamp ' + stamp(t))
+            idx.append((ci, 'latest', [ord(ch) for ch in 'grid_{:06}.h5'.format(t)], 'grid_{:06}.h5'.format(t) in r.get('names', [])))
     ans = core.model_parallel(req) if req else []
     for (ci, what, a, b), m in zip(idx, ans):
         c = cases[ci]
@@ -311,7 +318,7 @@ def check_ckpt(chk, cases, results):
                               'rank %d read tags that differ from ck_roundtrip although the direct oracle passes: %r' % (b, c),
                               rep, no_input=True)
         elif what == 'latest':
-            if m != ' '.join(map(str, a)):
+            if m != ' '.join(map(str, a)) or b is False:
                 chk.violation('checkpoint:latest-model-mismatch', 'python max() of names %r, model %s' % (a, m), rep,
                               no_input=True)
 
@@ -499,10 +506,18 @@ def check_const(chk, cases, results):
 # ------------------------------------------------------------------------------------------------
 # (c) the driver with stand-in physics
 # ------------------------------------------------------------------------------------------------
-def ckpt_name(prefix, k, dt):
-    """file name of the checkpoint of step k: the driver's t is the int 0 in a new run and k*dt afterwards"""
-    t = 0 if k == 0 else k * dt
+def ckpt_name(prefix, k, dt, start=0):
+    """file name of the checkpoint of step k written by a run that started at step `start`: the driver's t
+    is an int at start-up (0, or an integral time read from a checkpoint name) and start*dt + (k-start)*dt after"""
+    t = k * dt
+    if k == start and float(t) == int(t):
+        t = int(t)
     return '{0}_{1:06}.h5'.format(prefix, t)
+
+
+def steps_of(files, dt):
+    """set of (prefix, step) of a list of checkpoint file names"""
+    return set((f.split('_', 1)[0], step_of_name(f, dt)) for f in files)
 
 
 def step_of_name(name, dt):
@@ -600,10 +615,13 @@ def driver_case(c):
             out['unsplit'] = {'outcome': r['outcome'], 'detail': r['detail'][:300], 'files': files, 'rows': rows}
             if r['outcome'] == 'ok':
                 out['unsplit']['bad_files'] = _check_folder(os.path.join(du, 'simulation_0'), c['npts'], c['dt'])
-                name = ckpt_name('grid', kfin, c['dt'])
+                def final_file(folder):
+                    cand = [p for p in sorted(glob.glob(os.path.join(folder, 'grid_*.h5')))
+                            if step_of_name(p, c['dt']) == kfin]
+                    return cand[-1] if cand else None
                 same = False
-                pa, pb = os.path.join(d, 'simulation_0', name), os.path.join(du, 'simulation_0', name)
-                if os.path.exists(pa) and os.path.exists(pb):
+                pa, pb = final_file(os.path.join(d, 'simulation_0')), final_file(os.path.join(du, 'simulation_0'))
+                if pa and pb:
                     a, oa = D.read_dataset(pa)
                     b, ob = D.read_dataset(pb)
                     same = oa == ob and a.shape == b.shape and a.tobytes() == b.tobytes()
@@ -694,16 +712,6 @@ def check_driver(chk, cases, results):
                   sample={'saveStep': S, 'dt': dt, 'npts': c['npts'], 'segments(nranks,tEnd,stop_after)': c['segs'],
                           'model_stop_points': stops})
         rep = {'kind': 'driver', 'case': c}
-        # a float dt (t, ti are floats in the driver): which known weakness this history runs into, if any
-        float_key = None
-        if fdt:
-            for si, e in enumerate(stops):
-                if e % S != 0:
-                    float_key = K_FLOAT_FINAL      # range(1, ti % saveStep + 1) with a float ti
-                    break
-                if si + 1 < len(stops) and e > 0 and float(e * dt) != int(e * dt):
-                    float_key = K_FLOAT_TRUNC      # int(<name>.split('.')[0]) drops the fraction of t
-                    break
         problems = []
         mismatch = None
         if not isinstance(r, dict):
@@ -718,9 +726,10 @@ def check_driver(chk, cases, results):
             mfiles = set()
             prev_rows = 0
             for si, (sg, m) in enumerate(zip(r['segs'], model[ci])):
+                start = 0 if si == 0 else stops[si - 1]
                 for k in m['files']:
-                    mfiles.add(ckpt_name('grid', k, dt))
-                    mfiles.add(ckpt_name('phi', k, dt))
+                    mfiles.add(ckpt_name('grid', k, dt, start))
+                    mfiles.add(ckpt_name('phi', k, dt, start))
                 if set(sg['files']) != mfiles:
                     mismatch = ('files after segment %d: impl %r, model %r' % (si, sg['files'], sorted(mfiles)))
                     break
@@ -746,9 +755,9 @@ def check_driver(chk, cases, results):
             # files: t = 0, every multiple of saveStep up to the end, every stop point
             exp_files = set()
             for k in [0] + [k for k in range(1, exp_end + 1) if k % S == 0] + seen_stops:
-                exp_files.add(ckpt_name('grid', k, dt))
-                exp_files.add(ckpt_name('phi', k, dt))
-            if set(r['segs'][-1]['files']) != exp_files:
+                exp_files.add(('grid', k))
+                exp_files.add(('phi', k))
+            if steps_of(r['segs'][-1]['files'], dt) != exp_files:
                 problems.append(('fullSimulation:checkpoint-set', 'checkpoints %r, expected %r'
                                  % (r['segs'][-1]['files'], sorted(exp_files))))
             u = r.get('unsplit')
@@ -759,12 +768,12 @@ def check_driver(chk, cases, results):
                     if not u['final_same'] or u.get('bad_files'):
                         problems.append(('fullSimulation:restart-state', 'final checkpoint of the restarted run differs from '
                                          'the uninterrupted run'))
-                    extra = set(r['segs'][-1]['files']) - set(u['files'])
-                    lost = set(u['files']) - set(r['segs'][-1]['files'])
+                    extra = steps_of(r['segs'][-1]['files'], dt) - steps_of(u['files'], dt)
+                    lost = steps_of(u['files'], dt) - steps_of(r['segs'][-1]['files'], dt)
                     stop_names = set()
                     for k in seen_stops[:-1]:
-                        stop_names.add(ckpt_name('grid', k, dt))
-                        stop_names.add(ckpt_name('phi', k, dt))
+                        stop_names.add(('grid', k))
+                        stop_names.add(('phi', k))
                     if lost or not extra <= stop_names:
                         problems.append(('fullSimulation:restart-files', 'restarted folder lacks %r / has unexpected %r'
                                          % (sorted(lost), sorted(extra - stop_names))))
@@ -788,11 +797,6 @@ def check_driver(chk, cases, results):
                                          'is a multiple of saveStep'))
                     elif rows_ok:
                         problems.append((K_RESTART_ROWS, 'rows of the restarted run differ from the uninterrupted run'))
-        if float_key and (problems or mismatch):
-            # one report under the key of the float-dt weakness this history was predicted to hit
-            chk.violation(float_key, 'float dt=%r: %s | case %r' % (dt, (problems + [(None, mismatch)])[0][1], c),
-                          dict(rep, oracle=float_key))
-            continue
         for key, what in problems:
             chk.violation(key, what + ' | case %r' % (c,), dict(rep, oracle=key))
         if mismatch:
